@@ -39,7 +39,7 @@ var plans = map[string]*plan{
 		Quick:          []batchSpec{{Test: "TestC03", N: 6, Timeout: 10 * m}, {Test: "TestC03CounterConc", N: 8, Timeout: 10 * m}},
 		Thorough:       []batchSpec{{Test: "TestC03", N: 16, Timeout: 40 * m}, {Test: "TestC03CounterConc", N: 8, Timeout: 40 * m}},
 		EvalStats:      []string{"c03.build", "c03.accept.tried", "c03.counter.encodes"},
-		Floors:         map[string]int64{"c03.build": 15000, "c03.accept.accepted": 20000, "c03.counter.encodes": 400000, "c03.counterconc.wraps": 1200, "c03.reuse.checked": 15000, "c03.clone.checked": 3000, "c03.build.connect_setter_orders": 500, "classes": 300},
+		Floors:         map[string]int64{"c03.build": 15000, "c03.accept.accepted": 20000, "c03.counter.encodes": 400000, "c03.counterconc.wraps": 1200, "c03.reuse.checked": 15000, "c03.modify.checked": 8000, "c03.clone.checked": 3000, "c03.build.connect_setter_orders": 500, "classes": 300},
 		FloorsThorough: map[string]int64{"c03.build": 900000, "c03.accept.accepted": 1000000, "c03.counter.encodes": 400000, "classes": 1000},
 		Assumptions: []string{"the reference codec (harness/refcodec, written from the OASIS text) is correct",
 			"'built through the message API' means the value setters (SetTopic, SetPayload, SetUsername, AddTopic, ...); the raw flag setters SetUsernameFlag/SetPasswordFlag/SetWillFlag are only used together with their value"},
